@@ -328,6 +328,10 @@ func execFresh(spec *h.RunSpec, race bool) (*h.Result, error) {
 func crashResult(spec *h.RunSpec, stderr string) *h.Result {
 	res := &h.Result{Run: spec.Run, Spec: spec}
 	class, sig := h.ClassifyCrash(stderr)
+	if class == "harness-panic" {
+		res.Err = sig + "\n" + clip(firstLines(stderr, 14), 1500) // harness trouble (exit 2), never a verdict
+		return res
+	}
 	res.Violations = append(res.Violations, h.Violation{Property: "C11", Class: class, Signature: sig, Detail: clip(firstLines(stderr, 12), 1500)})
 	return res
 }
